@@ -162,4 +162,3 @@ def gen(rng, tier):
         ops.append("refenc " + w)
         ops.append("dec %d %s" % (rng.choice([65536, 65536, 1024, 64, 2, 0]), hx(rawpackets(rng))))
     return ops
-READY = False
